@@ -75,7 +75,7 @@ def run(ctx):
                 "--msgscript", msp, "--msgorder", "fwd" if k % 2 == 0 else "rev", "--others", str(1300 if quick else 2500)]
         if k < 4:
             # malformed key x degenerate signature x parsing entry points; simultaneous signers / verifiers
-            argv += ["--keyscript", ksp, "--concurrent", str(20 if quick else 60)]
+            argv += ["--keyscript", ksp, "--concurrent", str(60 if quick else 200)]
         if k == 0:
             argv += ["--extras", "--bigpairs", str(4 if quick else 12)]
         argvs.append(argv)
@@ -88,7 +88,7 @@ def run(ctx):
             raise Inconclusive("driver printed no summary")
         for key, v in re.findall(r"(\w+)=(\d+)", line[-1]):
             counts[key] = counts.get(key, 0) + int(v)
-    for need in ("verify", "g1parse", "roundtrip", "pair", "pairbig", "gteq", "msgpair", "history", "keysig", "keySigAccepted", "concurrent"):
+    for need in ("verify", "g1parse", "roundtrip", "pair", "pairbig", "gteq", "msgpair", "history", "keysig", "keySigAccepted", "concurrent", "shared"):
         if counts.get(need, 0) == 0:
             raise Inconclusive("vacuity: no %s events were produced" % need)
     total, accepted, classes = 0, 0, set()
@@ -128,6 +128,7 @@ def run(ctx):
         "key_x_signature_cases": len(keycases),
         "key_x_signature_evaluations": counts["keysig"],
         "concurrent_sign_verify_runs": counts["concurrent"],
+        "shared_object_families": counts["shared"],
         "related_message_pairs": len(msgcases) // 2,
         "related_message_cross_tables": counts["msgpair"],
         "history_independence_observations": counts["history"],
